@@ -121,3 +121,21 @@ Theorem c05_limit_ends_failed : forall (a : assets) (t0 fuel : nat) (x : st) (l 
   end.
 Proof. exact cuw_hit_ends_failed. Qed.
 Print Assumptions c05_limit_ends_failed.
+
+(* Resume bound.  [history a k s]: s was started and then resumed any number of times against the asset
+   store a; k counts the resumes that went through - neither rejected with an engine error (those leave
+   the session as it is) nor answered by failing the session because countWaits() had reached
+   MaxResumesPerSession.  A session cannot be resumed more often than the configured maximum: *)
+From Verif Require Import proofs.EngineResumes.
+
+Theorem c05_resume_bound : forall (a : assets) (k : nat) (s : session),
+  history a k s -> (Z.of_nat k <= Z.max 0 (max_resumes (a_opts a)))%Z.
+Proof. exact resume_bound. Qed.
+Print Assumptions c05_resume_bound.
+
+(* the invariant behind it: the number of *_wait events never decreases and grows in every sprint that
+   ends waiting, so a waiting session that went through k resumes has at least k + 1 of them *)
+Theorem c05_waits_grow : forall (a : assets) (k : nat) (s : session),
+  history a k s -> s_status s = SWaiting -> (k + 1 <= count_waits s)%nat.
+Proof. exact history_waits. Qed.
+Print Assumptions c05_waits_grow.
